@@ -1005,14 +1005,20 @@ class History:
         b = [Fraction(x) for x in cfg["b"]]
         per_dim_level = {}
         grids = {}
-        for lv in I:
+        # the component grids the implementation actually combines may lie outside its index set (then that is what the
+        # oracle has to judge): every level vector of the implementation's own scheme is tabulated as well
+        in_I = set(I)
+        extra = sorted(set(lv for lv, _ in scheme) - in_I)
+        if extra:
+            ctx.count("scheme_grids_outside_index_set", len(extra))
+        for lv in list(I) + extra:
             try:
                 pc, pl = impl.points(lv)
             except Exception as e:
                 self.viol("points-exception", {"levelvec": lv, "exception": repr(e)[:300], "at": tag}, {"exception": type(e).__name__})
                 return
             grids[lv] = pc
-            if self.model_on:
+            if self.model_on and lv in in_I:
                 mline = drv.ask("pts " + ",".join(str(x) for x in lv))
                 iline = "|".join(",".join(frac_str(x) for x in pc[d]) + ";" + ",".join(str(x) for x in pl[d]) for d in range(dim)) + " D 1"
                 self.corr("component-grid%s %s" % (tag, list(lv)), iline, mline)
